@@ -34,11 +34,39 @@
 #define NUM_CODES NC
 #define DECODER_NAME verif_lh_decoder
 #include "lib/lh_new_decoder.c"
+#ifndef H_CODE
 #define BITS_SPEC
 #ifndef BS_N
 #define BS_N 8
 #endif
 #include "bits_stub.h"
+#else
+/* Code-table harness: FIELD-SEQUENCE model of the bit string.  The bit string is a sequence of fields; the k-th
+ * read_bits(n) call returns the low n bits of the k-th pre-drawn field value and logs n; after fld_avail fields
+ * the input is exhausted (-1).  Reading "the same bits" then means: the same sequence of field widths (so, by
+ * the bit-reader refinement of bits.c, the same bit positions) - asserted at the end against the reference's
+ * width sequence.  This keeps every bit position out of the formula. */
+#define FMAX 32
+#define BS_N 1
+static u32 fld_val[FMAX];
+static u8 fld_w[FMAX], rf_w[FMAX];
+static unsigned fld_i, fld_avail, rf_i;
+static unsigned bs_pos, bs_bits;        /* bs_pos: bits consumed so far (sum of widths) */
+static int read_bits(BitStreamReader *reader, unsigned int n)
+{
+	(void) reader;
+	CHECK(n <= 25, "functional harness: requests of at most 25 bits (the range bits.c shows exact)");
+	if (n == 0) return 0;
+	if (fld_i >= fld_avail || fld_i >= FMAX) return -1;
+	fld_w[fld_i] = (u8) n;
+	bs_pos += n;
+	return (int) (fld_val[fld_i++] & ((1u << n) - 1u));
+}
+static int read_bit(BitStreamReader *reader) { return read_bits(reader, 1); }
+static int peek_bits(BitStreamReader *reader, unsigned int n) { (void) reader; (void) n; CHECK(0, "harness: peek_bits is not used by the table readers"); return -1; }
+static unsigned bs_ref(unsigned p, unsigned n) { (void) p; (void) n; return 0; }
+static u8 bs_data[1];
+#endif
 
 static LHANewDecoder dec;
 
@@ -61,6 +89,15 @@ static void build_tree(TreeElement *tree, size_t tree_len, uint8_t *code_lengths
 /* ---- reference parser: cursor rp over the same bits; ref_ok drops when the bits run out */
 static unsigned rp;
 static int ref_ok = 1;
+#ifdef H_CODE
+static unsigned rbits(unsigned n)
+{
+	if (!ref_ok || rf_i >= fld_avail || rf_i >= FMAX) { ref_ok = 0; return 0; }
+	rf_w[rf_i] = (u8) n;
+	rp += n;
+	return fld_val[rf_i++] & ((1u << n) - 1u);
+}
+#else
 static unsigned rbits(unsigned n)
 {
 	unsigned v;
@@ -69,6 +106,7 @@ static unsigned rbits(unsigned n)
 	rp += n;
 	return v;
 }
+#endif
 static unsigned ref_length(void)
 {
 	unsigned v = rbits(3);
@@ -213,14 +251,15 @@ static int read_from_tree(BitStreamReader *reader, TreeElement *tree)
 }
 void harness_code(void)
 {
-	INPUT_ARRAY(u8, stream, BS_N);
+	INPUT_ARRAY(u32, fields, FMAX);
 	INPUT_ARRAY(u8, tsym_in, NC + 1);
-	INPUT(u32, nbits); INPUT(u32, start); INPUT(u32, idx);
+	INPUT(u32, navail); INPUT(u32, idx); INPUT(u32, fidx);
 	u8 L[NC];
 	unsigned n, i, k = 0, single = 0, run, longrun = 0, clipped = 0;
 	int r;
-	ASSUME(nbits <= 8 * BS_N && start <= 8 && start <= nbits);
-	setup_stream(stream, nbits, start);
+	ASSUME(navail <= FMAX);
+	for (i = 0; i < FMAX; ++i) fld_val[i] = fields[i];
+	fld_avail = navail;
 	for (i = 0; i <= NC; ++i) { ASSUME(tsym_in[i] <= 30); tsyms[i] = tsym_in[i]; }
 	for (i = 0; i < NC; ++i) L[i] = 0xee;
 
@@ -231,7 +270,11 @@ void harness_code(void)
 	} else {
 		i = 0;
 		while (i < n && ref_ok) {
-			unsigned t = tsyms[k++];
+			unsigned t;
+#ifdef KMAX
+			ASSUME(k < KMAX);             /* this harness: tables written with at most KMAX temp symbols */
+#endif
+			t = tsyms[k++];
 			if (t >= 3) { L[i++] = (u8) (t - 2); continue; }
 			if (t == 0) run = 1;
 			else if (t == 1) run = 3 + rbits(4);
@@ -245,6 +288,10 @@ void harness_code(void)
 
 	r = read_code_table(&dec);
 
+	if (ref_ok) {
+		CHECK(fld_i == rf_i, "C01 H01.tables: code table reads the same number of bit fields as the reference");
+		if (fidx < rf_i) CHECK(fld_w[fidx] == rf_w[fidx], "C01 H01.tables: code table reads bit fields of the same widths in the same order as the reference");
+	}
 	if (!ref_ok) {
 		CHECK(r == 0 && cap_calls == 0, "C01 H01.tables: code table: truncated input fails without building a tree");
 	} else if (n == 0) {
@@ -262,7 +309,11 @@ void harness_code(void)
 		if (idx < n) CHECK(cap_lens[idx] == L[idx], "C01 H01.tables: code table: code length of every symbol");
 		if (longrun && !clipped && n > 21 && L[20] != 0) WITNESS("code: a 20+ zero run followed by a used symbol");
 		if (clipped) WITNESS("code: zero run ending at the table end");
+#ifdef KMAX
+		if (n == NC && k == KMAX) WITNESS("code: full table from KMAX temp symbols");
+#else
 		if (n == NC && k == NC) WITNESS("code: every entry coded individually");
+#endif
 	}
 	WITNESS("end");
 }
